@@ -178,6 +178,42 @@ def svcOp (repack : Bool) (rd : Bytes) : String :=
     if repack then (match Opt.packParams ps with | some w => hex w | none => "none")
     else if ps.isEmpty then "-" else " | ".intercalate (ps.map describeParam)
 
+
+def parseTVal (tok : String) : Option TextCodec.TVal :=
+  match tok.splitOn ":" with
+  | ["n", v] => v.toNat?.map TextCodec.TVal.n
+  | ["s", h] => (unhex h).map TextCodec.TVal.s
+  | ["l", h] =>
+    if h == "-" then some (.ss [])
+    else (h.splitOn ",").mapM (fun (x : String) => if x == "~" then some [] else unhex x) |>.map TextCodec.TVal.ss
+  | _ => none
+
+def showTVal : TextCodec.TVal → String
+  | .n v => s!"n:{v}"
+  | .s t => "s:" ++ hex t
+  | .ss [] => "l:-"
+  | .ss strs => "l:" ++ ",".intercalate (strs.map (fun x => if x.isEmpty then "~" else hex x))
+
+/-- `text.print <Type> vals…`: the RDATA text the translated `String()` prints -/
+def textPrint (typ : String) (args : List String) : String :=
+  match Gen.printTextPlans.lookup typ, args.mapM parseTVal with
+  | some plan, some vals =>
+    if plan.contains .other then "uncovered"
+    else match TextCodec.printPlan plan vals with
+      | some w => hex w
+      | none => "none"
+  | _, _ => "bad-op"
+
+/-- `text.parse <Type> <origin> <line>`: the field values the translated `parse` stores for the first entry of the line -/
+def textParse (typ : String) (origin line : Bytes) : String :=
+  match Gen.parseTextPlans.lookup typ with
+  | some plan =>
+    if plan.contains .other then "uncovered"
+    else match TextCodec.parsePlan origin plan (TxtParse.rdataTokens ((Lex.lexAll line).map (·.1))) [] with
+      | some vals => if vals.isEmpty then "-" else " ".intercalate (vals.map showTVal)
+      | none => "none"
+  | none => "bad-op"
+
 /-- `zone.denote <originhex> <defttl|-> line*` with line = `rr:<ownerhex|->:<ttl|->:<cls|->:<0|1>:<typ>` |
     `ttl:<v>` | `origin:<hex>` | `empty`.  Both the token machine and the specification are run. -/
 def zoneOp (spec : Bool) (args : List String) : String :=
@@ -452,6 +488,18 @@ def runOp (op : String) (args : List String) : String :=
   | "opt.repack", [t] => (match unhex t with | some b => optOp true b | none => "bad-op")
   | "svc.describe", [t] => (match unhex t with | some b => svcOp false b | none => "bad-op")
   | "svc.repack", [t] => (match unhex t with | some b => svcOp true b | none => "bad-op")
+  | "text.print", typ :: vals => textPrint typ vals
+  | "text.parse", [typ, o, l] => (match unhex o, unhex l with
+    | some ob, some lb => textParse typ ob lb
+    | _, _ => "bad-op")
+  | "txt.parse", [t] => (match unhex t with
+    | some b => (match TxtParse.parseTxtLine b with
+      | some ss => ("ok " ++ hexList ss).trimAscii.toString
+      | none => "err")
+    | none => "bad-op")
+  | "txt.sprint", ss => (match ss.mapM (fun (x : String) => if x == "~" then some [] else unhex x) with
+    | some l => hex (TxtParse.sprintTxt l)
+    | none => "bad-op")
   | "lex", [t] => match unhex t with
     | some b =>
       let toks := Lex.lexAll b
